@@ -97,7 +97,7 @@ func (f *STFS) Create(name string) (afero.File, error) {
 
 	name = cleanName(name)
 
-	if _, err := inventory.Stat(
+	if parent, err := inventory.Stat(
 		f.metadata,
 
 		filepath.Dir(name),
@@ -110,6 +110,9 @@ func (f *STFS) Create(name string) (afero.File, error) {
 		}
 
 		return nil, err
+	} else if parent.Typeflag != tar.TypeDir {
+		// Entries can only live beneath directories
+		return nil, config.ErrIsFile
 	}
 
 	return f.OpenFile(name, os.O_RDWR|os.O_CREATE|os.O_TRUNC, 0666)
@@ -290,7 +293,7 @@ func (f *STFS) Mkdir(name string, perm os.FileMode) error {
 	f.ioLock.Lock()
 	defer f.ioLock.Unlock()
 
-	if _, err := inventory.Stat(
+	if parent, err := inventory.Stat(
 		f.metadata,
 
 		filepath.Dir(name),
@@ -303,6 +306,9 @@ func (f *STFS) Mkdir(name string, perm os.FileMode) error {
 		}
 
 		return err
+	} else if parent.Typeflag != tar.TypeDir {
+		// Entries can only live beneath directories
+		return config.ErrIsFile
 	}
 
 	if hdr, err := inventory.Stat(
@@ -472,7 +478,7 @@ func (f *STFS) OpenFile(name string, flag int, perm os.FileMode) (afero.File, er
 
 			createFile := func() error {
 				if !f.readOnly && flag&os.O_CREATE != 0 && flag&os.O_EXCL == 0 {
-					if _, err := inventory.Stat(
+					if parent, err := inventory.Stat(
 						f.metadata,
 
 						filepath.Dir(name),
@@ -485,6 +491,9 @@ func (f *STFS) OpenFile(name string, flag int, perm os.FileMode) (afero.File, er
 						}
 
 						return err
+					} else if parent.Typeflag != tar.TypeDir {
+						// Entries can only live beneath directories
+						return config.ErrIsFile
 					}
 
 					if target, err := inventory.Stat(
@@ -763,7 +772,7 @@ func (f *STFS) Rename(oldname, newname string) error {
 		}
 	}
 
-	if _, err := inventory.Stat(
+	if parent, err := inventory.Stat(
 		f.metadata,
 
 		filepath.Dir(newname),
@@ -776,6 +785,9 @@ func (f *STFS) Rename(oldname, newname string) error {
 		}
 
 		return err
+	} else if parent.Typeflag != tar.TypeDir {
+		// Entries can only live beneath directories
+		return config.ErrIsFile
 	}
 
 	target, err := inventory.Stat(
@@ -1166,7 +1178,7 @@ func (f *STFS) SymlinkIfPossible(oldname, newname string) error {
 	f.ioLock.Lock()
 	defer f.ioLock.Unlock()
 
-	if _, err := inventory.Stat(
+	if parent, err := inventory.Stat(
 		f.metadata,
 
 		filepath.Dir(newname),
@@ -1179,6 +1191,9 @@ func (f *STFS) SymlinkIfPossible(oldname, newname string) error {
 		}
 
 		return err
+	} else if parent.Typeflag != tar.TypeDir {
+		// Entries can only live beneath directories
+		return config.ErrIsFile
 	}
 
 	if pathext.IsRoot(rawNewName, false) && pathext.IsRoot(rawOldName, false) {
